@@ -13,7 +13,6 @@ package c40
 import (
 	"bytes"
 	"crypto/sha256"
-	"encoding/binary"
 	"encoding/json"
 	"fmt"
 	"path/filepath"
@@ -49,11 +48,24 @@ type History struct {
 
 // ---------- ids and digests ----------
 
-func id64(h common.Uint256) uint64 { return binary.LittleEndian.Uint64(h[:8]) }
+// Hashes and digests are written as small identifiers: order of first appearance within the run,
+// the zero hash is 0 (the model only compares them and tests for the zero hash).
+var ids = map[common.Uint256]uint64{}
+
+func id64(h common.Uint256) uint64 {
+	if h == common.UINT256_EMPTY {
+		return 0
+	}
+	v, ok := ids[h]
+	if !ok {
+		v = uint64(len(ids) + 1)
+		ids[h] = v
+	}
+	return v
+}
 
 func digest(b []byte) uint64 {
-	s := sha256.Sum256(b)
-	return binary.LittleEndian.Uint64(s[:8])
+	return id64(common.Uint256(sha256.Sum256(b)))
 }
 
 func headerBytes(h *types.Header) []byte {
@@ -99,6 +111,7 @@ type runner struct {
 	hdr    int // highest header given to AddHeader since the last open (0 = none)
 	failed bool
 	segOps []string
+	run    []string // pending consecutive empty commits
 	segs   []string
 	c0     string
 	nq     int
@@ -322,7 +335,21 @@ func statusOf(err error, changed bool) string {
 	return "Ignored"
 }
 
+// addOp appends an operation to the current segment (flushing a pending run of empty commits).
+func (r *runner) addOp(term string) {
+	r.flushRun()
+	r.segOps = append(r.segOps, term)
+}
+
+func (r *runner) flushRun() {
+	if len(r.run) > 0 {
+		r.segOps = append(r.segOps, "XRun "+hx.CoqList(r.run))
+		r.run = nil
+	}
+}
+
 func (r *runner) endSegment(all bool) {
+	r.flushRun()
 	ck := r.checkpoint(all)
 	r.segs = append(r.segs, fmt.Sprintf("(%s,\n  %s)", hx.CoqList(r.segOps), ck))
 	r.segOps = nil
@@ -346,7 +373,11 @@ func (r *runner) step(s Step) {
 		} else {
 			r.cur++
 		}
-		r.segOps = append(r.segOps, fmt.Sprintf("XCommit %s %s", coqBlock(b), status))
+		if status == "Added" && len(b.Transactions) == 0 && int(b.Header.Height) == r.cur {
+			r.run = append(r.run, fmt.Sprintf("(%d,%d)", id64(b.Hash()), digest(headerBytes(b.Header))))
+		} else {
+			r.addOp(fmt.Sprintf("XCommit %s %s", coqBlock(b), status))
+		}
 		r.c.Count(fmt.Sprintf("op:commit ntx=%d", len(b.Transactions)))
 	case "stale", "future":
 		if s.Idx < 0 || s.Idx >= len(r.src) {
@@ -361,7 +392,7 @@ func (r *runner) step(s Step) {
 			r.fail("commit-out-of-order", "a block that is not the next one changed the current height", s, "ignored or rejected")
 			r.failed = true
 		}
-		r.segOps = append(r.segOps, fmt.Sprintf("XCommit %s %s", coqBlock(b), status))
+		r.addOp(fmt.Sprintf("XCommit %s %s", coqBlock(b), status))
 		r.c.Count("op:" + s.Op + " " + status)
 	case "header", "badheader":
 		idx := s.Idx
@@ -377,7 +408,7 @@ func (r *runner) step(s Step) {
 		if err == nil && idx > r.hdr {
 			r.hdr = idx
 		}
-		r.segOps = append(r.segOps, fmt.Sprintf("XHeader %s %s", coqHeader(h), status))
+		r.addOp(fmt.Sprintf("XHeader %s %s", coqHeader(h), status))
 		r.c.Count("op:" + s.Op + " " + status)
 	case "reopen":
 		r.k.Close()
@@ -387,7 +418,7 @@ func (r *runner) step(s Step) {
 			return
 		}
 		r.hdr = 0
-		r.segOps = append(r.segOps, "XReopen")
+		r.addOp("XReopen")
 		r.c.Count("op:reopen")
 	case "check":
 		r.endSegment(s.All)
@@ -441,7 +472,7 @@ func runHistory(c *hx.Ctx, hist History, tag string) {
 			}
 			r.step(s)
 		}
-		if !r.failed && len(r.segOps) > 0 {
+		if !r.failed && (len(r.segOps) > 0 || len(r.run) > 0) {
 			r.endSegment(false)
 		}
 	})
